@@ -44,7 +44,9 @@ CONFIG = dict(
          "queue-overflow case (1005 timers > channel capacity 999), one malformed stream; corpus first. A tenth of the cases: the run service's loop is parked in a posted closure while timers expire (their objects "
          "pile up in the queue), then StandardRunService.Stop is called from a foreign goroutine while the loop is still stuck, or after it "
          "resumed, or by the owner itself (no callback may run inside Stop / on the caller's goroutine; how many queued objects the exiting "
-         "loop still takes is left open, q=?). Run `svc`: a real actorex/service.Service "
+         "loop still takes is left open, q=?). Stale cancels (already fired one-shot, 0, never issued id, twice) are followed by new "
+         "one-shots, a continuing repeating timer and a real cancel; a real-time watchdog outside the bubble turns an op that never returns "
+         "(goroutines stuck on a mutex are not durably blocked) into the observation `blocked in=cancel|expiry`. Run `svc`: a real actorex/service.Service "
          "(actor + ScheDisp run service) issues requests to a recording peer, gets them answered or lets them time out, idles across several virtual "
          "seconds and gets busy again; observed per step: callback log of every timer object of the service's manager, ids held in Mgr.timers, "
          "Service.timerCheckExpired, request-table size (spec: a check timer the service gave up never fires again and is gone from the manager; "
